@@ -15,4 +15,8 @@ PlanCopy == << {"newroot"}, {"newstruct", "newcomp"}, {"newlist", "newstruct"}, 
                {"setstruct", "copyfrom", "setptr", "setroot"}, {"setelem", "setdata", "settext", "setptr"} >>
 PlanCopy2 == << {"newroot"}, {"newroot", "newstruct"}, {"newlist", "newcomp"}, {"setptr", "setplist"}, {"setptr", "setdata", "setelem"},
                 {"setstruct", "copyfrom", "setptr", "setroot"}, {"setelem", "setdata", "settext", "setptr"} >>
+\* overwrite a populated struct (list element or struct) by a copy of another struct whose fields are partly null / shorter:
+\* nothing of the old content may survive
+PlanOverwrite == << {"newroot"}, {"newcomp", "newstruct"}, {"settext", "newlist", "setptr"}, {"newstruct", "setdata"}, {"newstruct", "setdata", "settext"},
+                    {"setstruct", "copyfrom"}, {"setstruct", "copyfrom", "setptr"} >>
 ====
